@@ -126,11 +126,16 @@ package rlp
 //@ ghost sfirst (Array Int {uint8})
 //@ spec abstract fn reflBigPtr(v reflect.Value) bool
 
+// Stream.Bytes is verified (no longer trusted) for the canonical-form clause of C08; the history clause that publishes
+// the length and first byte in ghost state cannot be established by a body without ghost code and stays assumed.
 //@ func Stream.Bytes
-//@   option trusted
+//@   property C08
 //@   requires s != nil
-//@   ensures result1 == nil ==> @select(ghost(slen), ref(s)) == len(result0) && (len(result0) > 0 ==> @select(ghost(sfirst), ref(s)) == result0[0])
-//@   modifies *s, ghost(slen), ghost(sfirst)
+//@   ensures [hist!assumed] result1 == nil ==> @select(ghost(slen), ref(s)) == len(result0) && (len(result0) > 0 ==> @select(ghost(sfirst), ref(s)) == result0[0])
+//@   # one accepted encoding per byte string: a single byte below 0x80 never comes in string form
+//@   ensures [canon] result1 == nil && @select(ghost(lastkind), ref(s)) == String && len(result0) == 1 ==> result0[0] >= 128
+//@   ensures [armed] result1 == nil ==> s.kind == 0 - 1
+//@   modifies *s, ghost(slen), ghost(sfirst), ghost(lastkind)
 
 //@ func wrapStreamError
 //@   option trusted
